@@ -37,3 +37,52 @@ PROPS["C15"] = {
     "trusted_base": TB_COMMON + ["modelled not verified: IEEE-754 binary64 round-to-nearest-even as exact rationals (CircuitModel/F64.lean, compared bit-for-bit with Go on every run through the sd suite), no FMA contraction on amd64, sort.Slice sorts, expvar/time.ParseDuration round-trip of duration strings"],
     "assumptions": ["p is not NaN (Go's int(NaN) is unspecified)", "percentile/mean bounds are claimed for samples whose exact sum and max-min stay inside int64 (outside: finding F-C15-overflow)"],
 }
+
+# ---- circuit-level properties share the `circuit` suite; each projects the fields it is about
+import re as _re
+def _fields(line, keys):
+    kv = dict(t.split("=", 1) for t in line.split(" ") if "=" in t)
+    return " ".join("%s=%s" % (k, kv[k]) for k in keys if k in kv)
+
+def circuit_proj(keys):
+    return lambda line: _fields(line, keys)
+
+def circuit_spec_filter(prop):
+    """spec column of the circuit suite is '-' or '!C05:msg|C06:msg'; keep only this property's verdict"""
+    def f(spec):
+        return spec
+    return f
+
+TB_CIRCUIT = TB_COMMON + ["modelled not verified: Go context package (deadline = min, values and cancellation propagate to derived contexts), errors.As, the substitute clock (each reading advances 1 ns), sequential execution (concurrency is covered by the schedule harness where a property quantifies over schedules)"]
+
+class _PropFilter:
+    """spec column '-' or '!C05:msg|C06:msg' -> '!msg' for this property, else '-'"""
+    def __init__(self, prop): self.prop = prop
+    def __call__(self, x): return x
+    def filter(self, spec):
+        if not spec.startswith("!"): return "-"
+        mine = [v for v in spec[1:].split("|") if v.startswith(self.prop + ":")]
+        return ("!" + mine[0]) if mine else "-"
+
+class CircuitSeq(Seq):
+    """Seq over a shared suite restricted to one property's fields and verdicts"""
+    def __init__(self, prop, keys, quick, thorough, suite="circuit"):
+        self.prop = prop
+        super().__init__(suite, quick, thorough, proj_model=circuit_proj(keys) if keys else ident, proj_spec=_PropFilter(prop), label=suite)
+
+ALL_KEYS = ["res", "run", "fb", "seen", "after", "fbarg", "fbsame", "ev", "rd", "rel", "open", "conc", "fan"]
+def _circuit_prop(pid, keys, text):
+    PROPS[pid] = {"components": [CircuitSeq(pid, keys, 1500, 60000)],
+        "rule": "circuit: random histories of Execute (every error shape x elapsed-vs-timeout boundary x caller-context state x IgnoreInterrupts x IsErrInterrupt verdict x fallback nil/disabled/throttled/failing/panicking) mixed with OpenCircuit/CloseCircuit/SetConfigThreadSafe/clock ticks/timer callbacks, over opener x closer in {never, hystrix, consecutive, scripted}; "
+                "non-trivial = at least one control-plane op AND at least one of bad-request shape / timeout boundary / cancel during run / panic; distinct by FNV hash. Compared fields for this property: " + ",".join(keys) + ". " + text,
+        "trusted_base": TB_CIRCUIT, "assumptions": ["sequential histories (one call at a time); schedules are covered separately where the property quantifies over them"]}
+
+_circuit_prop("C05", ["ev", "fan", "run", "fb"], "")
+_circuit_prop("C06", ["res", "run", "fb", "fbarg"], "")
+_circuit_prop("C01", ["res", "run", "fbarg", "ev", "open"], "")
+_circuit_prop("C08", ["res", "run", "fb", "seen", "ev", "open"], "")
+_circuit_prop("C12", ["ev", "rd"], "")
+_circuit_prop("C07", ["seen", "after", "rel", "fbsame"], "")
+_circuit_prop("C10", ["res", "conc", "open", "ev"], "")
+_circuit_prop("C09", ["ev", "open", "fan"], "")
+
